@@ -3,9 +3,9 @@ import json, os, shutil, collections
 from . import common as C
 
 MANIFEST = dict(
-   technique="Lean 4 proof of the FinalizeIssue priority chain for arbitrary error maps + translator: the wiring of every issue site (which message sources reach FinalizeIssue) and the locale x issue-kind table are regenerated from the real code on every run by sentinel error maps (Gen/MsgWiring.lean, Gen/LocaleTable.lean), decided in Lean over the regenerated tables, and every one of the 2^k source subsets of every site is compared with the model's prediction",
-   text="finalize_priority proves, for arbitrary error-map functions, that FinalizeIssue's message is the first non-empty of check message, schema message, per-parse map, global custom map, locale, built-in text. c18_wired_partial (decide over the regenerated wiring of 54 issue leaves x 8 nesting wrappers) and c18_all_sites_partial lift it to: at every site and for every configuration outside the listed gaps the message comes from the first configured source; c18_locales: every bundled locale returns a non-empty message for every issue kind of the regenerated catalogue, which covers the required kinds (c18_locales_cover). The gaps (site x missing source) are open known findings with witness theorems.",
-   note="Trusted: Lean kernel; axioms propext/Classical.choice/Quot.sound only; the Go harness (site catalogue, sentinel maps), the generator of the Gen tables and the comparer. Sites are a finite catalogue (54 leaves x 8 wrappers, 2^k configurations each), not all schemas; a source is identified by a constant sentinel message. Locale non-emptiness is checked on one representative raw issue per kind.",
+   technique="Lean 4 proof of the FinalizeIssue priority chain for arbitrary error maps + three translators regenerated on every run: (1) a go/ast catalogue of EVERY call in the library's source that creates an issue, reaches FinalizeIssue, parses a nested schema or copies a ParseContext, with the message sources each call hands on (Gen/IssueSites.lean); (2) the behavioural wiring of 60 issue leaves x 14 nesting positions under sentinel error maps (Gen/MsgWiring.lean), tied to (1) by the call stack captured when the message is resolved; (3) the locale x parameter table (Gen/LocaleTable.lean). Theorems are decided in Lean over the whole regenerated tables, and every cell of the run (source subsets, silent sources, issue-dependent maps, SetConfig histories, random nesting chains) is compared with the model's prediction",
+   text="finalize_priority proves, for arbitrary error-map functions, that FinalizeIssue's message is the first non-empty of check message, schema message, per-parse map, global custom map, locale, built-in text. c18_sites_partial (decide over the go/ast table of every issue-creating / finalising / nested-parse / context-copy call) and c18_sites_all_partial: every call hands on every source except what siteGaps lists for it, so a new call that forgets the context changes a proof obligation; c18_static_dynamic ties that table to the run. c18_wired_partial / c18_all_sites_partial: at every site of the behavioural catalogue and every configuration outside the listed gaps the message comes from the first configured source; dep_spec / dep_site extend this to maps that answer for some issues and decline others; nested_message / c18_every_depth (induction over the chain of positions, base case the per-site table, per-position table c18_positions_exact) give 'at every nesting depth'. c18_locales / c18_locales_cover / c18_locales_producible: every bundled locale returns a non-empty message over the full parameter table (origin x threshold x inclusive, format x detail, expected x input kind, keys, values, divisor, every code), whose columns include every kind the creation sites name in the source. The gaps are open known findings with witness theorems.",
+   note="Trusted: Lean kernel; axioms propext/Classical.choice/Quot.sound only; the Go harness (leaf catalogue, sentinel and issue-dependent maps, call-stack capture), the go/ast translator's classification of expressions (syntactic, no type checking: a context is 'the caller's' when it is derived from a parameter of the enclosing function), the writers of the Gen tables and the comparer. The behavioural leaves reach 22 of the 111 finalising calls; the others are covered by the static theorem only. Plain Union / Xor branches do not report their issues, so there is no message to attribute there (the matched variant of a discriminated union is covered).",
    design="DESIGN.md §5 C18; notes/C18.md")
 
 MODULES = ["Gozod.Proofs.C18"]
@@ -102,6 +102,19 @@ def site_drops(s):
     if (reaches or s["class"] in ("nested", "ctxcopy")) and s["ctx"] != "caller": r += "p"
     if reaches and s["cfg"] not in ("fallback", "global", "param"): r += "gl"
     return r
+
+def unlisted_static_sites(static):
+    """the rows of the static table that break c18_sites_partial (computed here only to AIM the report; Lean decides)"""
+    import re
+    src = open(os.path.join(C.LEAN, "Gozod", "Proofs", "C18.lean")).read()
+    m = re.search(r"def siteGaps : List \(String × SrcSet\) := \[(.*?)\]\s*def siteGapOf", src, re.S)
+    gaps = dict(re.findall(r'\("([^"]+)", \.ofString "([a-z]*)"\)', m.group(1))) if m else {}
+    out = []
+    for st in static:
+        dr = site_drops(st)
+        extra = "".join(ch for ch in dr if ch not in gaps.get(st["key"].rsplit("#", 1)[0], ""))
+        if extra: out.append((st, extra))
+    return out
 
 def attach_reach(static, reach_path):
     """reach.txt (leaf@wrapper, caller of FinalizeIssue, first frame outside internal/issues) → site['reached']"""
@@ -287,6 +300,16 @@ def run(res):
     ch3 = write_if_changed(os.path.join(GEN, "IssueSites.lean"), gen_issue_sites(static, seen))
     res.notes.append("Gen/MsgWiring.lean %s, Gen/LocaleTable.lean %s, Gen/IssueSites.lean %s" % tuple("rewritten" if c else "unchanged" for c in (ch1, ch2, ch3)))
 
+    # structure fingerprints of the hand-transcribed functions (FinalizeIssue, ExtractConfigLevelError, executeChecks, SetConfig, …):
+    # every cell of the run goes through FinalizeIssue and (hist cells) SetConfig, so a changed function is always reached; a
+    # function that is gone is a broken tie
+    changed = C.fingerprint(res, "C18")
+    for k, lean_def, kind, fdetail in changed:
+        if kind == "missing":
+            C.tie_broken(res, "fingerprint " + k, "the Go function that %s transcribes is gone or renamed (%s)" % (lean_def or "the model", fdetail))
+        else:
+            res.notes.append("fingerprint: %s changed (%s: %s) - %s; the sentinel / silent / dep / hist cells all run through it" % (k, kind, fdetail, lean_def))
+
     # 2. the driver (model + regenerated tables) decides every cell; failing cells carry their concrete input
     okd, outd = C.lake_build(["driver_c18"])
     if not okd:
@@ -307,19 +330,37 @@ def run(res):
 
     # 3. the theorems over the regenerated tables
     ok, detail = C.prove(res, MODULES, THEOREMS)
+    aimed = unlisted_static_sites(static)
+    if aimed:
+        # the static table has calls that drop a source and are not listed: say which, and which leaves of the run reach them
+        res.notes.append("static issue sites outside siteGaps (c18_sites_partial): " + "; ".join(
+            "%s:%d drops %s [%s] reached by %s" % (st["key"], st["line"], dr, st["class"], ",".join(st["reached"]) or "no leaf of the run") for st, dr in aimed[:12]))
     if not ok and not res.violations:
+        if aimed:
+            detail = ("go/ast site table: these calls do not hand on a source and are not listed in siteGaps (Proofs/C18.lean):\n" + "\n".join(
+                "  %s (line %d, %s): drops %s; ctx=%s cfg=%s inst=%s msg=%s; reached by leaves: %s" % (st["key"], st["line"], st["class"], dr, st["ctx"], st["cfg"], st["inst"], st["msg"],
+                ", ".join(st["reached"]) or "none of the run (no cell of the catalogue finalises there)") for st, dr in aimed[:20]) + "\n\n" + detail)
         C.tie_broken(res, "proof Gozod.Proofs.C18 over the regenerated tables", detail)
     res.coverage.setdefault("trusted_base", list(C.TRUSTED_BASE))
     res.coverage["trusted_base"] = res.coverage["trusted_base"] + [
         "translator: harness/cmd/c18 (site catalogue, sentinel error maps) + vlib/c18.py (Gen/MsgWiring.lean, Gen/LocaleTable.lean writer)"]
     res.coverage["sites"] = len(SITES)
     res.coverage["gaps"] = {s: d["missing"] for s, d in SITES.items() if d["missing"] and d["wrapper"] == "top"}
-    res.coverage["rule"] = ("54 issue leaves (invalid_type per raising schema, too_small/too_big per origin, invalid_format per format, not_multiple_of, "
-        "unrecognized_keys, invalid_union, invalid_value, key/element, custom) x 8 wrappers (top, object field, slice element, array item, tuple item, "
-        "record value, map value, object in slice) x every subset of the applicable sources (up to 32) with constant sentinel maps; "
-        "every bundled locale x every issue kind of the catalogue. distinct = distinct cells.")
+    reached = [st for st in static if st["class"] in ("finalize", "helper") and st["reached"]]
+    res.coverage["static_sites"] = dict(collections.Counter(st["class"] for st in static))
+    res.coverage["static_sites_reached_by_a_leaf"] = "%d of %d finalising calls" % (len(reached), sum(1 for st in static if st["class"] in ("finalize", "helper")))
+    res.coverage["static_sites_dropping_a_source"] = {st["key"]: site_drops(st) for st in static if site_drops(st)}
+    res.coverage["positions"] = {w: ("forwards the context" if fw else "drops the per-parse map") for w, fw in positions(SITES).items()}
+    res.coverage["rule"] = ("60 issue leaves (invalid_type per raising schema, too_small/too_big per origin, invalid_format per format, not_multiple_of, "
+        "unrecognized_keys, invalid_union, invalid_value, key/element, custom, and issues raised on derived inputs: prefault / coerced / overwritten values) "
+        "x 14 positions (top, object field, slice element, array item, tuple item, record value, map value, object in slice, discriminated-union variant, "
+        "lazy, pipe, struct field, intersection, record key) x every subset of the applicable sources (up to 32) with constant sentinel maps; random nesting "
+        "chains of depth 2-4 (quick 40, thorough 400 + every pair of the 8 container positions) x each source alone / all / none; silent sources; "
+        "issue-dependent maps (8 map kinds per source, 10 random assignments per site, thorough 60); SetConfig histories; "
+        "every bundled locale x the full parameter table. distinct = distinct cells.")
     res.assumptions += [
-        "a message source is identified by a constant sentinel string; maps that inspect the issue are covered by finalize_priority (arbitrary maps) only",
+        "a message source is identified by a sentinel string; issue-dependent maps are drawn from 8 kinds (by code, by input kind, by origin) - other maps are covered by finalize_priority / dep_spec (arbitrary maps) only",
+        "the go/ast translator is syntactic: 'caller' = an expression derived from a *ParseContext parameter of the enclosing function or closure",
         "a site passes a source iff that source, configured alone, determines the message; all other subsets are then predicted by the model and compared",
         "the global configuration is process-wide: the harness runs cells sequentially",
     ]
